@@ -16,6 +16,7 @@ Emitted (consumed by `PytaskModel/Clean.lean`):
   gitJoinBase              : String        -- "git_root" | "root": what the ls-files output is joined onto in clean.py
   gitRootArgs              : List String   -- arguments of `git rev-parse` in git.get_root
   gitRootResolved          : Bool          -- whether get_root normalises `cwd / cdup` (resolve()/normpath)
+  gitOutputDecoding        : String        -- "strict" | "surrogateescape": cmd_output keeps distinct byte names distinct (else fail-closed)
   gitKnownExtra            : List String   -- extra component(s) added below git_root to the known paths (".git")
   cleanKnowsProvisional    : Bool          -- whether _yield_paths_from_task also yields what a provisional node collects
   rootStopRules            : List (String × String)  -- config_utils.find_project_root_and_config: per directory, in order,
@@ -198,6 +199,24 @@ def section() -> list[str]:
         raise ExtractError(f"get_all_files: unsupported ls-files arguments {ls_args}")
     if "Path(x) for x in str_paths" not in ast.unparse(gaf):
         raise ExtractError("get_all_files: result is not [Path(x) for x in str_paths]")
+
+    # --- cmd_output: how git's bytes become text. File names are bytes; the model has abstract names, so only decodings that keep
+    #     the bytes apart are accepted: strict (aborts on a name that is not valid UTF-8) or surrogateescape / os.fsdecode.
+    co = extract._func(git, "cmd_output")
+    decodings = set()
+    for n in ast.walk(co):
+        if isinstance(n, ast.Call) and isinstance(n.func, ast.Attribute) and n.func.attr == "decode" and "stdout" in ast.unparse(n.func.value):
+            kw = {k.arg: ast.unparse(k.value) for k in n.keywords}
+            pos = [ast.unparse(a) for a in n.args]
+            if len(pos) > 1:
+                kw["errors"] = pos[1]
+            decodings.add(kw.get("errors", "'strict'").strip("'\""))
+        if isinstance(n, ast.Call) and ast.unparse(n.func) == "os.fsdecode" and "stdout" in ast.unparse(n):
+            decodings.add("surrogateescape")
+    if not decodings or not decodings <= {"strict", "surrogateescape"}:
+        raise ExtractError(f"git.cmd_output: the output of git is decoded with errors={sorted(decodings)}: names that are not valid "
+                           f"UTF-8 would be altered (the model compares names as they are)")
+    git_decoding = sorted(decodings)[0] if len(decodings) == 1 else "mixed"
 
     gr = extract._func(git, "get_root")
     gr_args = None
@@ -383,6 +402,7 @@ def section() -> list[str]:
         f"def gitJoinBase : String := {lean_str(join_base)}",
         f"def gitRootArgs : List String := {strs(gr_args)}",
         f"def gitRootResolved : Bool := {lean_bool(resolved)}",
+        f"def gitOutputDecoding : String := {lean_str(git_decoding)}",
         f"def gitKnownExtra : List String := {strs(extra)}",
         f"def cleanKnowsProvisional : Bool := {lean_bool(knows_provisional)}",
         "def rootStopRules : List (String × String) := [" + ", ".join(f"({lean_str(a)}, {lean_str(b)})" for a, b in stop_rules) + "]",
